@@ -212,6 +212,7 @@ pub fn rule_pool(m: Model) -> Vec<RuleSpec> {
         r("let-sum", "(let $x (sum $y ?b) ?e)", "(sum $y (let $x ?b ?e))"),
         r("let-subst", "(let $x ?b ?e)", "?b[(var $x) := ?e]"),
         r("let-intro", "(mul ?a ?a)", "(let $z (mul (var $z) (var $z)) ?a)"),
+        r("add-self", "(add ?a ?a)", "(mul 2 ?a)"),
     ];
     if m.p == 7 {
         v.push(c("sum-const", "(sum $x ?a)", "(mul 3 ?a)", "x", "a"));
@@ -399,6 +400,32 @@ pub fn run_case(rng: &mut Rng, bad: bool) -> CaseOut {
             t = format!("(add {t} (mul (mul (var $p) 1) (add (mul (var $p) 1) 2)))");
         }
     }
+    // swapped-pair family: one two-parameter subterm next to its copy with the two parameters exchanged, under the operators the
+    // repeated-variable rules (factor, let-intro, add-self) match: `T[p,q] + T[q,p]` is an instance of `?a + ?a` only if T is symmetric
+    let swapped_pair = !subst_focus && directed.is_none() && rng.chance(1, 5);
+    if swapped_pair {
+        let mut inner = String::new();
+        for _ in 0..10 {
+            let mut sc = vec!["p".to_string(), "q".to_string()];
+            let dd = rng.range(1, 2);
+            let c = gen_arith(rng, dd, &mut sc, &mut fresh, false);
+            if c.contains("(var $p)") && c.contains("(var $q)") {
+                inner = c;
+                break;
+            }
+        }
+        if inner.is_empty() {
+            inner = "(mul (var $p) (add (var $q) 1))".to_string();
+        }
+        let sw = inner.replace("(var $p)", "(var $#)").replace("(var $q)", "(var $p)").replace("(var $#)", "(var $q)");
+        let pair = match rng.below(4) {
+            0 => format!("(add {inner} {sw})"),
+            1 => format!("(mul {inner} {sw})"),
+            2 => format!("(add (mul {inner} (var $p)) (mul {sw} 2))"),
+            _ => format!("(sum $bw (add (mul {inner} (var $bw)) (mul {sw} (var $bw))))"),
+        };
+        t = if rng.chance(1, 2) { pair } else { format!("(add {t} {pair})") };
+    }
     if let Some(d) = &directed {
         t = d.0.clone();
     }
@@ -409,6 +436,17 @@ pub fn run_case(rng: &mut Rng, bad: bool) -> CaseOut {
     idx.truncate(k);
     for i in idx {
         chosen.push(pool[i].clone());
+    }
+    if swapped_pair {
+        chosen.truncate(4);
+        for n in ["factor", "let-intro", "add-self"] {
+            if !chosen.iter().any(|r| r.name == n) {
+                if let Some(r) = pool.iter().find(|r| r.name == n) {
+                    chosen.push(r.clone());
+                }
+            }
+        }
+        out.inc("runs_swapped_pair");
     }
     if subst_focus {
         chosen.truncate(3);
